@@ -154,6 +154,14 @@ func init() {
 				p.Chain = append(p.Chain, world.ChainEv{AtMs: rapid.IntRange(2500, 250000).Draw(t, "burstat"), Chain: "btc", Kind: "mine", N: pick(t, "burst", []int{50, 200, 480, 499, 500, 503})})
 			}
 			p.Scn.Flavor[0] = pick(t, "flv", []string{"cln", "lnd"})
+			if p.Scn.Adapter[0] != "" {
+				p.Scn.Adapter[0] = p.Scn.Flavor[0]
+			}
+			if rapid.IntRange(0, 2).Draw(t, "hint") == 0 {
+				// the claim invoice carries a routing hint (as invoices for unannounced channels do)
+				cfg.Inv.Hint = pick(t, "hintkind", []string{"swapchan", "swapchan", "other"})
+				cfg.Inv.HintDelta = pick(t, "hintdelta", []uint32{6, 40, 144, 600, 900, 2000})
+			}
 			return p
 		},
 		Monitors:   world.MonitorsFor("C05"),
@@ -209,9 +217,24 @@ func init() {
 		ID: "C12",
 		Gen: func(t *rapid.T, tier string) *world.Plan {
 			// hostile responder (maker or taker) with hostile premiums / fee invoices, or two real nodes with odd rates
-			mode := rapid.IntRange(0, 2).Draw(t, "mode")
+			mode := rapid.IntRange(0, 3).Draw(t, "mode")
 			var p *world.Plan
 			switch mode {
+			case 3:
+				// two swaps in a row on one node with its real Lightning adapter: first it funds an
+				// opening transaction that costs much more than its flat estimate (a wallet of many
+				// small coins) for a swap-in the hostile peer completes; later it asks the same peer
+				// for a swap-out and gets a fee invoice above three times the estimate. Whatever the
+				// first swap left behind in the node must not move the bound.
+				p = genPlan(t, genOpts{chains: []string{"btc"}, types: []string{"swapin"}, sched: true, duration: []int{400}, adapters: 100, clnAdapters: 100})
+				p.Scn.Kind = [2]string{"real", "adv"}
+				p.Scn.BlockEverySec = 5
+				p.Crashes, p.Net, p.Faults, p.LN, p.Silence, p.Chain = nil, nil, nil, nil, nil, nil
+				p.Scn.Layout[0].FeeMult = pick(t, "feemult", []int{1, 8, 8, 20})
+				p.Ops = []world.Op{{AtMs: 2000, Node: 0, Kind: "swapin", Chain: "btc", Amount: 100_000, Limit: 100000},
+					{AtMs: pick(t, "secondat", []int{90000, 150000}), Node: 0, Kind: "swapout", Chain: "btc", Amount: 100_000, Limit: 100000}}
+				p.AdvCfg = &world.AdvCfg{Role: "taker", Chain: "btc", Amount: 100_000, PayClaim: true, FeeSat: pick(t, "fee2", []int64{10500, 10501, 14000, 35000, 47000, 3500})}
+				return p
 			case 0:
 				p = advMakerPlan(t, nil, false)
 				p.AdvCfg.Initiate = false
